@@ -227,7 +227,8 @@ def run_sched(ctx, build=True, per_theorem=None):
     rule = ('C15 ranges: 5 adaptive optimizers x hyperparameter corners (defaults, degenerate ranges, extremes, guard-accepted '
             'holes, seeded random) x n_iterations in {1,2,3,7[,25,100]} x population x (AIWPSO) forced success counts '
             '{natural, all improve, none improve}; one evaluation = one comparison of an observed value with the regenerated '
-            'schedule or one oracle check; non-trivial = runs in which an adaptive hyperparameter changed')
+            'schedule or one oracle check; non-trivial = distinct configurations (optimizer, hyperparameters, n_iterations, population, '
+            'mode) in whose run an adaptive hyperparameter changed value')
     ctx.cov['rule'] = (ctx.cov.get('rule') + ' | ' if ctx.cov.get('rule') else '') + rule
     for s in data['samples'][:2]:
         ctx.sample({'sched_run': s})
@@ -242,7 +243,8 @@ def harness_items(items, found):
     for f in found:
         if (f['opt'], f['hp']) not in have:
             have.add((f['opt'], f['hp']))
-            out.append({'opt': f['opt'], 'hp': f['hp'], 'file': f['file'], 'line': f['line'], 'end_line': f['line'],
+            out.append({'opt': f['opt'], 'cls_file': f.get('cls_file', f['file']), 'hp': f['hp'], 'file': f['file'],
+                        'line': f['line'], 'end_line': f['line'],
                         'text': f['text'], 'tree': None, 'vars': [], 'conds': [], 'phase': None})
     return out
 
